@@ -11,6 +11,11 @@ Reads (repository root = $VERIF_REPO, default /repo):
                                         specially handled mjtBool element)
   include/mujoco/mjxmacro.h             MJDATA_POINTERS (type, nr, nc of every field), MJMODEL_SIZES
   include/mujoco/mjdata.h               scalar members of struct mjData_ (for `&d->time`)
+  src/engine/engine_io.c                body of mj_resetDataKeyframe -> `_resetData(m, d, 0)` followed by the
+                                        guarded list of keyframe copies (field, key_* array, stride, count);
+                                        body of mj_resetData -> timing diagnostics + `_resetData(m, d, 0)`
+  src/engine/engine_support.c           body of mj_setKeyframe -> two guards + the mirrored list of copies
+  include/mujoco/mjxmacro.h             MJMODEL_POINTERS rows of the key_* arrays (allocated nkey x row)
 
 Nothing about the table is hard-coded: names, bits, sizes and fields are whatever the source says.
 Refuses (exit 3 + message on stderr) whenever a construct is outside the understood shape.
@@ -249,6 +254,99 @@ def match_loops(src):
     return [v] if v else []
 
 
+
+# ------------------------------------------------------------------------------------------ keyframes
+KSIZE = r"(?:\d+|m -> \w+)(?: \* (?:\d+|m -> \w+))*"
+
+
+def parse_ksize(expr):
+    fs = []
+    for f in [x.strip() for x in expr.split("*")]:
+        if re.fullmatch(r"\d+", f):
+            fs.append(("const", int(f)))
+        else:
+            fs.append(("var", re.fullmatch(r"m -> (\w+)", f).group(1)))
+    return fs
+
+
+def parse_key_rows(what, text, idx, load):
+    """text: normalised statement list consisting only of keyframe copies.
+    load:  d -> F = m -> K [ idx ] ;            | mju_copy ( d -> F , m -> K + idx * STRIDE , SIZE ) ;
+    store: m -> K [ idx ] = d -> F ;            | mju_copy ( m -> K + idx * STRIDE , d -> F , SIZE ) ;"""
+    if load:
+        r_sc = re.compile(r"d -> (?P<f>\w+) = m -> (?P<k>\w+) \[ %s \] ; ?" % idx)
+        r_cp = re.compile(r"mju_copy \( d -> (?P<f>\w+) , m -> (?P<k>\w+) \+ %s \* (?P<st>%s) , (?P<n>%s) \) ; ?" % (idx, KSIZE, KSIZE))
+    else:
+        r_sc = re.compile(r"m -> (?P<k>\w+) \[ %s \] = d -> (?P<f>\w+) ; ?" % idx)
+        r_cp = re.compile(r"mju_copy \( m -> (?P<k>\w+) \+ %s \* (?P<st>%s) , d -> (?P<f>\w+) , (?P<n>%s) \) ; ?" % (idx, KSIZE, KSIZE))
+    rows, pos = [], 0
+    text = text.strip()
+    while pos < len(text):
+        m = r_sc.match(text, pos)
+        if m:
+            rows.append({"field": m.group("f"), "key": m.group("k"), "stride": [("const", 1)], "size": [("const", 1)], "scalar": True})
+        else:
+            m = r_cp.match(text, pos)
+            if not m:
+                raise Refuse("%s: statement is not a plain keyframe copy (only `d->F = m->K[i];` and "
+                             "`mju_copy(d->F, m->K + i*N, N);` are modelled) near %r" % (what, text[pos:pos + 90]))
+            rows.append({"field": m.group("f"), "key": m.group("k"), "stride": parse_ksize(m.group("st")),
+                         "size": parse_ksize(m.group("n")), "scalar": False})
+        pos = m.end()
+    if not rows:
+        raise Refuse("%s: no keyframe copies found" % what)
+    return rows
+
+
+def parse_keyframes():
+    io = read("src/engine/engine_io.c")
+    sup = read("src/engine/engine_support.c")
+    # mj_resetData: timing diagnostics, then the shared _resetData (so `reset` is the `base` of the keyframe model)
+    b = norm(function_body(io, r"\nvoid\s+mj_resetData\s*\([^)]*\)\s*\{", "mj_resetData"))
+    if b != "mj_logTimingDiagnostics ( d ) ; _resetData ( m , d , 0 ) ;":
+        raise Refuse("mj_resetData: body is not `mj_logTimingDiagnostics(d); _resetData(m, d, 0);`")
+    b = norm(function_body(io, r"\nvoid\s+mj_resetDataKeyframe\s*\(\s*const\s+mjModel\s*\*\s*m\s*,\s*mjData\s*\*\s*d\s*,\s*int\s+key\s*\)\s*\{",
+                           "mj_resetDataKeyframe"))
+    m = re.fullmatch(r"_resetData \( m , d , 0 \) ; if \( key >= 0 && key < m -> (?P<nk>\w+) \) \{ (?P<rows>[^{}]*)\}", b)
+    if not m:
+        raise Refuse("mj_resetDataKeyframe: body is not `_resetData(m, d, 0); if (key >= 0 && key < m->nkey) { copies }` "
+                     "(anything else - e.g. post-processing of the loaded values - is outside the modelled shape)")
+    nkey = m.group("nk")
+    load = parse_key_rows("mj_resetDataKeyframe", m.group("rows"), "key", True)
+    b = norm(function_body(sup, r"\nvoid\s+mj_setKeyframe\s*\(\s*mjModel\s*\*\s*m\s*,\s*const\s+mjData\s*\*\s*d\s*,\s*int\s+k\s*\)\s*\{",
+                           "mj_setKeyframe"))
+    err = r"mjERROR \( (?:\"(?:[^\"\\]|\\.)*\"|PRId64| |, m -> \w+)* \) ; "
+    m = re.fullmatch(r"if \( k >= m -> (?P<nk>\w+) \) \{ " + err + r"\} if \( k < 0 \) \{ " + err + r"\} (?P<rows>[^{}]*)", b)
+    if not m:
+        raise Refuse("mj_setKeyframe: body is not `if (k >= m->nkey) {mjERROR} if (k < 0) {mjERROR} copies`")
+    if m.group("nk") != nkey:
+        raise Refuse("mj_setKeyframe and mj_resetDataKeyframe guard with different sizes (%s vs %s)" % (m.group("nk"), nkey))
+    store = parse_key_rows("mj_setKeyframe", m.group("rows"), "k", False)
+    # allocated shape of the key_* arrays
+    xm = strip_comments(read("include/mujoco/mjxmacro.h"))
+    karr = {}
+    for r in load + store:
+        k = r["key"]
+        if k in karr:
+            continue
+        hits = re.findall(r"\bX\w*\s*\(\s*([\w ]+?)\s*,\s*%s\s*,\s*(\w+)\s*,\s*([^,()]*(?:\([^()]*\)[^,()]*)*?)\s*\)" % re.escape(k), xm)
+        if len(hits) != 1:
+            raise Refuse("mjxmacro.h: expected exactly one X(...) row for model array %s, found %d" % (k, len(hits)))
+        typ, nr, nc = hits[0]
+        if typ.strip() != "mjtNum":
+            raise Refuse("model array %s has storage type %s (only mjtNum is modelled)" % (k, typ))
+        fs = [("var", nr)]
+        for f in [x.strip() for x in nc.split("*")]:
+            mm = re.fullmatch(r"MJ_M\s*\(\s*(\w+)\s*\)", f)
+            if re.fullmatch(r"\d+", f):
+                fs.append(("const", int(f)))
+            elif mm:
+                fs.append(("var", mm.group(1)))
+            else:
+                raise Refuse("mjxmacro.h: column count of %s not understood: %r" % (k, nc))
+        karr[k] = fs
+    return nkey, load, store, karr
+
 # ------------------------------------------------------------------------------------------ xmacros
 def parse_xmacro(src, name):
     m = re.search(r"#define\s+%s\b[^\n]*\\\n((?:[^\n]*\\\n)*[^\n]*\n)" % name, src)
@@ -374,6 +472,41 @@ def translate():
         if fld not in used_fields:
             used_fields.append(fld)
         rows.append({"name": n, "bit": bit_of[n], "size": fs, "field": fld, "special": spec, "scalar": scalar})
+    n_state_fields = len(used_fields)
+    # keyframe copies (mj_resetDataKeyframe / mj_setKeyframe)
+    nkey, kload, kstore, karr = parse_keyframes()
+    use_size(nkey)
+    key_arrays = []
+    for r in kload + kstore:
+        for k, v in r["stride"] + r["size"]:
+            if k == "var":
+                use_size(v)
+        fld = r["field"]
+        if r["scalar"]:
+            if fld not in scalars or fld in fields:
+                raise Refuse("keyframe copy: d->%s is not a scalar member of struct mjData_" % fld)
+            typ, dim = scalars[fld], [("const", 1)]
+        else:
+            if fld not in fields:
+                raise Refuse("keyframe copy: d->%s is not in MJDATA_POINTERS" % fld)
+            typ, nr, nc = fields[fld]
+            use_size(nr)
+            if not re.fullmatch(r"\d+", nc):
+                raise Refuse("MJDATA_POINTERS %s: column count %r is not an integer literal" % (fld, nc))
+            dim = [("var", nr), ("const", int(nc))]
+        if typ != "mjtNum":
+            raise Refuse("keyframe copy: field %s has storage type %s (mju_copy moves mjtNum)" % (fld, typ))
+        if fld in alloc and (alloc[fld] != dim or ftype[fld] != typ):
+            raise Refuse("inconsistent dimension for field %s" % fld)
+        alloc[fld], ftype[fld] = dim, typ
+        if fld not in used_fields:
+            used_fields.append(fld)
+        if r["key"] not in key_arrays:
+            key_arrays.append(r["key"])
+    for k in key_arrays:
+        for kk, v in karr[k]:
+            if kk == "var":
+                use_size(v)
     for n in ptr_of:
         if n not in size_of:
             raise Refuse("element %s has a ptr case but no size case" % n)
@@ -382,7 +515,7 @@ def translate():
             raise Refuse("specially handled element %s has no size case" % n)
 
     L = []
-    L.append("-- GENERATED by translate/c26_tables.py from %s, src/engine/engine_support.c," % enum_file)
+    L.append("-- GENERATED by translate/c26_tables.py from %s, src/engine/engine_support.c, src/engine/engine_io.c," % enum_file)
     L.append("-- include/mujoco/mjxmacro.h and include/mujoco/mjdata.h.  Do not edit; regenerated on every run.")
     L.append("import MjProof.Model.State")
     L.append("namespace MjProof.Gen")
@@ -399,7 +532,7 @@ def translate():
     for v in used_sizes:
         L.append('  | .%s => "%s"' % (v, v))
     L.append("")
-    L.append("/-- `mjData` fields that the state table points at -/")
+    L.append("/-- `mjData` fields that the state table points at (then those only the keyframe copies touch) -/")
     L.append("inductive StateField where")
     for f in used_fields:
         L.append("  | %s" % f)
@@ -430,6 +563,39 @@ def translate():
     L.append("")
     L.append("def stateTable : Table (StateSize → Nat) StateField := stateSym.toTable")
     L.append("")
+    L.append("/-- model `key_*` arrays that the keyframe copies read / write -/")
+    L.append("inductive KeyArray where")
+    for k in key_arrays:
+        L.append("  | %s" % k)
+    L.append("  deriving DecidableEq, Repr")
+    L.append("")
+    L.append("def KeyArray.all : List KeyArray := [%s]" % ", ".join("." + k for k in key_arrays))
+    L.append("def KeyArray.name : KeyArray → String")
+    for k in key_arrays:
+        L.append('  | .%s => "%s"' % (k, k))
+    L.append("")
+
+    def krow(r):
+        return "{ field := .%s, key := .%s, stride := %s, size := %s }" % (r["field"], r["key"], lean_expr(r["stride"]), lean_expr(r["size"]))
+    L.append("/-- keyframes: `load` = the copies inside `if (key >= 0 && key < m->%s)` of `mj_resetDataKeyframe`" % nkey)
+    L.append("    (which follow `_resetData(m, d, 0)`; nothing else is in the body), `store` = the copies of")
+    L.append("    `mj_setKeyframe` after its two guards, both in source order; `kalloc` = `nr*nc` of the")
+    L.append("    `key_*` arrays in `MJMODEL_POINTERS` -/")
+    L.append("def keySym : SymKeyTable StateSize StateField KeyArray where")
+    L.append("  nkey := .%s" % nkey)
+    L.append("  load := [")
+    L.append(",\n".join("    " + krow(r) for r in kload))
+    L.append("  ]")
+    L.append("  store := [")
+    L.append(",\n".join("    " + krow(r) for r in kstore))
+    L.append("  ]")
+    L.append("  alloc := stateSym.alloc")
+    L.append("  kalloc := fun")
+    for k in key_arrays:
+        L.append("    | .%s => %s" % (k, lean_expr(karr[k])))
+    L.append("")
+    L.append("def keyTable : KeyTable (StateSize → Nat) StateField KeyArray := keySym.toTable")
+    L.append("")
     L.append("/-- every enumerator of `mjtState` that is a single bit, in declaration order -/")
     L.append("def stateEnum : List (String × Nat) := [%s]" % ", ".join('("%s", %d)' % (n, b) for n, b in elems))
     L.append("")
@@ -450,6 +616,8 @@ def translate():
         "enum": [{"name": n, "bit": b} for n, b in elems],
         "elems": rows, "sizes": used_sizes, "fields": used_fields,
         "alloc": alloc, "ftype": ftype, "named": [{"name": n, "value": v} for n, v in named],
+        "state_fields": used_fields[:n_state_fields],
+        "key": {"nkey": nkey, "load": kload, "store": kstore, "arrays": key_arrays, "kalloc": karr},
     }
     return lean, info
 
@@ -476,8 +644,9 @@ def main():
             with open(tmp, "w") as f:
                 f.write(text)
             os.replace(tmp, p)
-    print("c26_tables: %d elements, %d fields, mjNSTATE=%d -> %s" % (len(info["elems"]), len(info["fields"]), info["nstate"],
-                                                                    os.path.join(out, "StateTable.lean")))
+    print("c26_tables: %d elements, %d fields, mjNSTATE=%d, %d+%d keyframe copies -> %s"
+          % (len(info["elems"]), len(info["fields"]), info["nstate"], len(info["key"]["load"]), len(info["key"]["store"]),
+             os.path.join(out, "StateTable.lean")))
 
 
 if __name__ == "__main__":
